@@ -114,10 +114,64 @@ def judge(case):
     return None
 
 
+def special_cases():
+    """(description, list of invocations [(files written before the call: name -> text or None to delete, argv tail, expected)])"""
+    TWO = "model Tank Real h; equation der(h) = 1; end Tank;\nmodel Pump Real q; equation q = 2; end Pump;\n"
+    PKG = "package P model A Real a; equation a = 1; end A; end P;\n"
+    INP = "within P; model B Real b; equation b = 2; end B;\n"
+    out = []
+    # casadi needs a file named after each model: a model that merely lives in an earlier model's file has none, in either order
+    for models in (["Tank", "Pump"], ["Pump", "Tank"], ["Tank", "Pump", "Tank"]):
+        argv = sum((["-m", m] for m in models), []) + ["-t", "casadi"]
+        out.append(("casadi: second model defined inside the first model's file", [({"Tank.mo": TWO}, argv, ("return", sum(1 for m in models if m == "Pump")))]))
+    # only files with parse errors, none that parses
+    for target in (None, "sympy"):
+        out.append(("only broken files", [({"B1.mo": BAD, "B2.mo": BAD}, ["-m", "Good"] + (["-t", target] if target else []), ("return", 2))]))
+        out.append(("only broken files", [({"B1.mo": BAD, "B2.mo": BAD, "B3.mo": BAD}, [], ("return", 3))]))
+    # 'for every invocation': two invocations in one process, the files edited in between
+    out.append(("file breaks between two invocations", [({"Good.mo": GOOD}, ["-m", "Good"], ("return", 0)), ({"Good.mo": BAD}, ["-m", "Good"], ("return", 1))]))
+    out.append(("file repaired between two invocations", [({"Good.mo": BAD}, ["-m", "Good"], ("return", 1)), ({"Good.mo": GOOD}, ["-m", "Good"], ("return", 0))]))
+    out.append(("a class of a file that is gone in the second invocation", [({"A.mo": PKG, "B.mo": INP}, ["-m", "P.B"], ("return", 0)), ({"B.mo": None}, ["-m", "P.B"], ("return", 1))]))
+    out.append(("same with the sympy target", [({"A.mo": PKG, "B.mo": INP}, ["-m", "P.B", "-t", "sympy"], ("return", 0)), ({"B.mo": None}, ["-m", "P.B", "-t", "sympy"], ("return", 1))]))
+    return out
+
+
+def judge_special(desc, steps):
+    with tempfile.TemporaryDirectory() as tmp:
+        d = Path(tmp) / "lib"
+        d.mkdir()
+        out = Path(tmp) / "out"
+        out.mkdir()
+        cwd = os.getcwd()
+        os.chdir(tmp)
+        try:
+            for k, (files, tail, exp) in enumerate(steps):
+                for name, text in files.items():
+                    if text is None:
+                        (d / name).unlink()
+                    else:
+                        (d / name).write_text(text)
+                got = run_main([str(d)] + tail + ["-o", str(out)])
+                if got != exp:
+                    return {"class": "cli", "input": {"scenario": desc, "invocation": k + 1, "files": sorted(p.name for p in d.iterdir()), "argv": ["<tmp>/lib"] + tail},
+                            "observed": list(got), "expected": list(exp)}
+        finally:
+            os.chdir(cwd)
+    return None
+
+
 def main():
     payload = json.load(sys.stdin)
     tier = payload.get("tier", "quick")
     failures, n = [], 0
+    for desc, steps in special_cases():
+        n += 1
+        try:
+            f = judge_special(desc, steps)
+        except Exception as e:  # noqa
+            f = {"class": "cli", "input": {"scenario": desc}, "observed": "harness error %s: %s" % (type(e).__name__, e), "expected": "-"}
+        if f:
+            failures.append(f)
     for c in cases(tier):
         n += 1
         try:
@@ -131,7 +185,7 @@ def main():
     if payload.get("mode") == "bounded":
         print(json.dumps({"performed": True, "cases": n, "distinct_nontrivial": n, "failures": failures,
                           "rule": "real tools.compiler.main on temp trees: file sets (valid, syntactically broken, not UTF-8 encoded) x model lists (valid, unflattenable, unknown, repeated, both orders) x target (none/sympy/casadi) "
-                                  "plus usage-error combinations; status compared with an oracle count",
+                                  "plus usage-error combinations, casadi calls whose second model lives in the first model's file, invocations with only broken files, and pairs of invocations in one process with the files edited in between; status compared with an oracle count",
                           "bound": "%d invocations" % n}))
     else:
         f = failures[0] if failures else None
